@@ -20,3 +20,21 @@ func VerifQueues(c *Client) (int, int, int) { return len(c.requests), len(c.send
 
 // VerifExits returns the reader/writer exit flags of the wire.
 func VerifExits(c *Client) (bool, bool) { return c.wire.readExit, c.wire.writeExit }
+
+// VerifTimeout returns the deadline the client arms for an operation of the given frame type.
+func VerifTimeout(typ uint32) int64 {
+	switch typ {
+	case TypeRead:
+		return int64(opReadTimeout)
+	case TypeWrite:
+		return int64(opWriteTimeout)
+	case TypeSync:
+		return int64(opSyncTimeout)
+	case TypeUnmap:
+		return int64(opUnmapTimeout)
+	}
+	return int64(opPingTimeout)
+}
+
+// VerifRegistered returns the number of requests registered in c.messages.
+func VerifRegistered(c *Client) int { return len(c.messages) }
